@@ -23,6 +23,7 @@ type GenCfg struct {
 	MaxKeys        int
 	BigValues      bool
 	MaxFan         int
+	CapToThreshold bool // values never exceed the value threshold (the in-memory mode limit)
 	FixSpec        func(s *dbx.Spec)
 }
 
@@ -57,6 +58,8 @@ func genKeys(t *rapid.T, minN, maxN int) [][]byte {
 	return keys
 }
 
+var capToThreshold bool // set per generated program by GenProgram (generation is single threaded)
+
 func genVSize(t *rapid.T, s dbx.Spec, big bool) int {
 	T := int(s.ValueThreshold)
 	cands := []int{0, 1, 5, T - 1, T, T + 1, 2 * T, s.BlockSize - 1, s.BlockSize + 1, 100}
@@ -70,6 +73,9 @@ func genVSize(t *rapid.T, s dbx.Spec, big bool) int {
 	}
 	if v < 0 {
 		v = 0
+	}
+	if capToThreshold && v > int(s.ValueThreshold) {
+		v = int(s.ValueThreshold)
 	}
 	return v
 }
@@ -105,6 +111,7 @@ func genIterSpec(t *rapid.T, nkeys int, hold bool) *IterSpec {
 // GenProgram draws a whole program.
 func GenProgram(t *rapid.T, c GenCfg) Program {
 	var p Program
+	capToThreshold = c.CapToThreshold
 	p.Spec = dbx.Gen(t, c.DB)
 	if c.FixSpec != nil {
 		c.FixSpec(&p.Spec)
@@ -149,7 +156,7 @@ func GenProgram(t *rapid.T, c GenCfg) Program {
 	for i := 0; i < n; i++ {
 		op := Op{Kind: rapid.SampledFrom(kinds).Draw(t, "kind")}
 		switch op.Kind {
-		case "fill", "l0l0", "churn", "deepen", "l0shape":
+		case "fill", "l0l0", "churn", "deepen", "l0shape", "l0big":
 			open[3] = 0
 		case "reopen":
 			open = [4]int{}
@@ -161,6 +168,29 @@ func GenProgram(t *rapid.T, c GenCfg) Program {
 		case "l0l0": // macro: four flushed L0 tables, aged, then worker 0 with a low adjusted score
 			for j := 0; j < 4; j++ {
 				p.Ops = append(p.Ops, genFill(t, p.Spec, c, nk, rapid.IntRange(1, 5).Draw(t, "fill"), 0)...)
+				p.Ops = append(p.Ops, Op{Kind: "flush"})
+			}
+			p.Ops = append(p.Ops, Op{Kind: "backdate"}, Op{Kind: "compact", A: 0, B: 0, T: 1})
+			continue
+		case "l0big": // macro: four sizeable L0 tables merged by worker 0 into one big L0 table (which later L0->L0 picks skip)
+			per := int(p.Spec.MemTableSize/12) - 8
+			if T := int(p.Spec.ValueThreshold) - 1; per > T {
+				per = T // keep the values inline so that the tables themselves are big
+			}
+			cnt := int(p.Spec.MemTableSize*6/10) / (per + 40)
+			if cnt < 2 {
+				cnt = 2
+			}
+			if cnt > 40 {
+				cnt = 40
+			}
+			start := rapid.IntRange(0, nk-1).Draw(t, "start")
+			for j := 0; j < 4; j++ {
+				for x := 0; x < cnt; x++ {
+					p.Ops = append(p.Ops, Op{Kind: "begin", T: 3, RW: true, Ts: uint64(rapid.IntRange(1, 60).Draw(t, "rts"))},
+						Op{Kind: "set", T: 3, Key: start + x + j*rapid.IntRange(0, 2).Draw(t, "shift"), VSize: per},
+						Op{Kind: "commit", T: 3, Ts: uint64(rapid.IntRange(1, 60).Draw(t, "cts"))})
+				}
 				p.Ops = append(p.Ops, Op{Kind: "flush"})
 			}
 			p.Ops = append(p.Ops, Op{Kind: "backdate"}, Op{Kind: "compact", A: 0, B: 0, T: 1})
@@ -189,6 +219,9 @@ func GenProgram(t *rapid.T, c GenCfg) Program {
 			start := rapid.IntRange(0, nk-1).Draw(t, "start")
 			cnt := rapid.IntRange(3, 10).Draw(t, "cnt")
 			vs := int(p.Spec.ValueThreshold) + rapid.IntRange(0, 200).Draw(t, "extra")
+			if capToThreshold {
+				vs = int(p.Spec.ValueThreshold)
+			}
 			for round := 0; round < 2; round++ {
 				for j := 0; j < cnt; j++ {
 					p.Ops = append(p.Ops, Op{Kind: "begin", T: 3, RW: true, Ts: uint64(rapid.IntRange(1, 60).Draw(t, "rts"))},
@@ -325,7 +358,7 @@ func genFill(t *rapid.T, s dbx.Spec, c GenCfg, nk, cnt, minV int) []Op {
 		for x := 0; x < m && j < cnt; x++ {
 			w := genWrite(t, s, c, 3, nk)
 			w.Key = start + j*stride
-			if w.Kind == "set" && w.VSize < minV {
+			if w.Kind == "set" && w.VSize < minV && !capToThreshold {
 				w.VSize = minV
 				if max := int(s.MemTableSize / 12); w.VSize > max {
 					w.VSize = max
